@@ -11,7 +11,7 @@ EXTENDS Integers, Sequences, FiniteSets, TLC, Json, IOUtils
 
 T == ndJsonDeserialize(IOEnv.TRACE)
 VARIABLES l, phase, reg, q, stb, srq, out, lastOp
-S == INSTANCE ScpiStatus WITH Cap <- 1, Ops <- {}
+S == INSTANCE ScpiStatusNested WITH Cap <- 1, Ops <- {}, NestedOps <- {}
 
 RegIdx == [STB |-> 1, SRE |-> 2, ESR |-> 3, ESE |-> 4, OPER |-> 5, OPERE |-> 6, OPERC |-> 7, QUES |-> 8, QUESE |-> 9, QUESC |-> 10]
 RegOf(rec) == [n \in S!Regs |-> IF n = "SRE" THEN S!Bits(rec.r[RegIdx[n]]) \ {6} ELSE S!Bits(rec.r[RegIdx[n]])]
@@ -24,7 +24,7 @@ Init == /\ l \in 1..Len(T) /\ phase = 0
         /\ reg = RegOf(T[l].f) /\ q = T[l].f.q /\ stb = StbOf(T[l].f)
         /\ srq = <<>> /\ out = <<>> /\ lastOp = <<"from">>
 Next == /\ phase = 0 /\ phase' = 1 /\ l' = l
-        /\ LET a == S!Apply(reg, q, stb, OpOf(T[l].op), T[l].cap) IN
+        /\ LET a == S!ApplyAny(reg, q, stb, OpOf(T[l].op), T[l].cap) IN
            /\ reg' = [a.reg EXCEPT !["SRE"] = @ \ {6}] /\ q' = a.q /\ stb' = a.stb /\ srq' = a.srq /\ out' = a.out
            /\ lastOp' = T[l].op
 Spec == Init /\ [][Next]_vars
@@ -35,7 +35,7 @@ Judged == FromOk(T[l].f)
 ImplEsr == S!Bits(T[l].t.r[3])
 \* on overflow the pushed error itself is not queued: its class bit may or may not be reported
 EsrOk == \/ ImplEsr = reg["ESR"]
-         \/ /\ T[l].op[1] = "push" /\ Len(T[l].f.q) >= T[l].cap
+         \/ /\ T[l].op[1] \in {"push"} \cup S!NestedKinds /\ Len(T[l].f.q) >= T[l].cap
             /\ ImplEsr = reg["ESR"] \ ((S!ClassBits(T[l].op[2]) \ {S!DER}) \ S!Bits(T[l].f.r[3]))
 Diff == {n \in S!Regs \ {"ESR"} : RegOf(T[l].t)[n] # reg[n]}
         \cup (IF EsrOk THEN {} ELSE {"ESR"})
@@ -44,9 +44,11 @@ Diff == {n \in S!Regs \ {"ESR"} : RegOf(T[l].t)[n] # reg[n]}
         \cup (IF out = T[l].out \/ (T[l].op = <<"cmd", "*SRE?">> /\ Len(T[l].out) = 1 /\ S!Bits(T[l].out[1]) \ {6} = S!Bits(out[1]) \ {6})
               THEN {} ELSE {"out"})
         \cup (IF srq # <<>> /\ T[l].srq = <<>> THEN {"srq-missing"} ELSE {})
-        \cup (IF srq # <<>> /\ T[l].srq # <<>> /\ S!Bits(T[l].srq[Len(T[l].srq)]) # StbOf(T[l].t) THEN {"srq-not-current-status-byte"} ELSE {})
+        \* (with a draining callback the last announcement may be that of a passing state: then one of them must carry the final byte or MSS)
+        \cup (IF srq # <<>> /\ T[l].srq # <<>> /\ T[l].op[1] \notin S!NestedKinds /\ S!Bits(T[l].srq[Len(T[l].srq)]) # StbOf(T[l].t) THEN {"srq-not-current-status-byte"} ELSE {})
         \cup (IF \E i \in 1..Len(T[l].srq) : 6 \notin S!Bits(T[l].srq[i]) THEN {"srq-without-mss"} ELSE {})
-        \cup (IF T[l].srq # <<>> /\ 6 \notin StbOf(T[l].t) /\ 6 \notin StbOf(T[l].f) THEN {"srq-while-mss-clear"} ELSE {})
+        \* (a push drained by the error callback may raise MSS in passing: the announcement in between is legitimate)
+        \cup (IF T[l].srq # <<>> /\ 6 \notin StbOf(T[l].t) /\ 6 \notin StbOf(T[l].f) /\ T[l].op[1] \notin S!NestedKinds THEN {"srq-while-mss-clear"} ELSE {})
 Conforms == phase = 1 =>
               IF Judged THEN Diff = {} \/ PrintT(<<"MISMATCH", l, Diff>>)
               ELSE PrintT(<<"UNJUDGED", l>>)
